@@ -172,18 +172,36 @@ class Seq(Kind):
                                  for s in self.elem.leaf_sorts()]
 
 
+def nested_array_sort(dom_sorts, rng):
+    out = rng
+    for d in reversed(dom_sorts):
+        out = z3.ArraySort(d, out)
+    return out
+
+
+def nsel(arr, terms):
+    for t in terms:
+        arr = z3.Select(arr, t)
+    return arr
+
+
+def nstore(arr, terms, val):
+    if len(terms) == 1:
+        return z3.Store(arr, terms[0], val)
+    return z3.Store(arr, terms[0], nstore(z3.Select(arr, terms[0]), terms[1:], val))
+
+
 class Set(Kind):
-    """set of single-leaf elements: (size, membership array)."""
+    """set: (size, membership array - nested over the leaves of the element kind)."""
 
     def __init__(self, elem):
-        if elem.nleaves() != 1:
-            raise Unsupported('Set of multi-leaf kind %r' % (elem,))
+        if elem.nleaves() < 1:
+            raise Unsupported('Set of leafless kind %r' % (elem,))
         self.elem = elem
         self.name = 'Set(%r)' % (elem,)
 
     def leaf_sorts(self):
-        return [z3.IntSort(),
-                z3.ArraySort(self.elem.leaf_sorts()[0], z3.BoolSort())]
+        return [z3.IntSort(), nested_array_sort(self.elem.leaf_sorts(), z3.BoolSort())]
 
 
 class Map(Kind):
@@ -372,19 +390,19 @@ def empty_set(elem):
 
 
 def set_has(s, e):
-    return z3.Select(s.terms[1], coerce(e, s.kind.elem).t)
+    return nsel(s.terms[1], coerce(e, s.kind.elem).terms)
 
 
 def set_add(s, e):
-    t = coerce(e, s.kind.elem).t
-    return V(s.kind, [s.terms[0] + z3.If(z3.Select(s.terms[1], t), 0, 1),
-                      z3.Store(s.terms[1], t, z3.BoolVal(True))])
+    ts = coerce(e, s.kind.elem).terms
+    return V(s.kind, [s.terms[0] + z3.If(nsel(s.terms[1], ts), 0, 1),
+                      nstore(s.terms[1], ts, z3.BoolVal(True))])
 
 
 def set_remove(s, e):
-    t = coerce(e, s.kind.elem).t
-    return V(s.kind, [s.terms[0] - z3.If(z3.Select(s.terms[1], t), 1, 0),
-                      z3.Store(s.terms[1], t, z3.BoolVal(False))])
+    ts = coerce(e, s.kind.elem).terms
+    return V(s.kind, [s.terms[0] - z3.If(nsel(s.terms[1], ts), 1, 0),
+                      nstore(s.terms[1], ts, z3.BoolVal(False))])
 
 
 # --------------------------------------------------------------------- maps
